@@ -229,7 +229,11 @@ Theorem bs_step_network_no_panic : forall chk ct slot sd op,
   sd_panicked (fst (fst (bs_step chk ct slot sd op))) = false /\
   snd (fst (bs_step chk ct slot sd op)) <> BRPanic.
 Proof.
-  intros chk ct slot sd op [Id Ir] Hp Hn. unfold bs_step. rewrite Hp.
+  intros chk ct slot sd op [Id Ir] Hp Hn.
+  (* a shred refused by the tag guard changes nothing *)
+  destruct (bs_step_cases chk ct slot sd op) as [->|[_ [_ ->]]];
+    [|cbn [fst snd]; split; [split; [exact Id|exact Ir]|split; [exact Hp|discriminate]]].
+  unfold bs_step_gen. rewrite Hp. cbn [andb].
   destruct op as [s|key expected s|idx last root size]; [| |discriminate].
   - destruct (sd_misbehaved sd) eqn:Em; [cbn; split; [split; [exact Id|exact Ir]|split; [exact Hp|discriminate]]|].
     destruct (add_shred_no_panic chk ct slot (sd_dissem sd) s Id) as [Hnp Inv'].
@@ -314,7 +318,9 @@ Qed.
 Theorem bs_step_block_parent_earlier : forall ct slot sd op sd' h p evs,
   net_op op = true -> bs_step true ct slot sd op = (sd', BROk (Some (h, p)), evs) -> fst p < slot.
 Proof.
-  intros ct slot sd op sd' h p evs Hn H. unfold bs_step in H. destruct (sd_panicked sd); [discriminate|].
+  intros ct slot sd op sd' h p evs Hn H.
+  destruct (bs_step_cases true ct slot sd op) as [E|[_ [_ E]]]; rewrite E in H; [|discriminate].
+  unfold bs_step_gen in H. destruct (sd_panicked sd); [discriminate|]. cbn [andb] in H.
   destruct op as [s|key expected s|]; [| |discriminate].
   - destruct (sd_misbehaved sd); [discriminate|].
     destruct (bd_add_shred true ct slot (sd_dissem sd) s) as [d r] eqn:Ea. destruct r as [e|e|]; [| |discriminate].
